@@ -58,6 +58,8 @@ def job(a):
         limit += len(cases)
         for spec in mod.specs(wv.rng, 'quick', wid, nw, wv.env):
             if spec[0] in ('sweep', 'battery', 'hugeidx', 'sieve', 'slowlc'): continue
+            # the huge classes of the value checks (20000-limb gcds, ...) cost seconds each in the Python oracle: they stay in their own check
+            if spec[0] in ('z', 'n') and len(spec) > 2 and isinstance(spec[1], int) and isinstance(spec[2], int) and max(spec[1], spec[2]) > 5000: continue
             case = mod.build(spec, wv.env)
             if case is None: continue
             case.spec = spec
